@@ -1,8 +1,10 @@
 import props as _props
+from locks_gen import regen_locks
 
 PROP = {
     "extra": [_props.race_detector_run("C11")],
-    "coq": ["C11"],
+    "coq": ["C11", "C11b"],
+    "pre": [regen_locks],
     "exhaustive": False,
     "rule": "Real server on loopback TCP (modbus.NewServer + Start, MaxClients 16, one goroutine and one transport per accepted connection) "
             "with a shared recording handler whose answers derive from the request address; 2-8 raw TCP clients using IDENTICAL "
@@ -16,7 +18,8 @@ PROP = {
             "connection's handler call blocked on a channel, a third connection issues 5 requests, each answered within 300 ms while the "
             "others are held for 1 s; then both held connections are released and served."
             " Scenario tlsroles (also run under the race detector): one real tcp+tls server, 2..8 TLS clients whose certificates share a serial number and partly an issuer (roles ops/admin/none/malformed, two refused), sequential, concurrent and in parallel; every handler invocation carries the role of its own connection's leaf."
-            " Scenario holwrite: a scripted connection whose response write blocks until the write deadline is served by the real server next to a live TCP client whose requests must all be answered within 300 ms.",
+            " Scenario holwrite: a scripted connection whose response write blocks until the write deadline is served by the real server next to a live TCP client whose requests must all be answered within 300 ms."
+            " The lock skeleton of server.go is re-extracted before the Coq build with the operations that can wait for a peer, the handler or another goroutine (Accept, ReadRequest, WriteResponse, Handshake, handler calls, sleeps, channel operations) as AWait actions: a wait under ms.lock fails the discipline check.",
     "assumptions": [
         "a handler invocation is one atomic step of the shared handler state (the library adds no lock around handler calls; handlers synchronise themselves)",
         "wall-clock 'does not delay' relies on one goroutine per connection and the Go scheduler: observed by the harness (300 ms bound, up to 3 attempts per case to rule out machine load), not modelled",
@@ -24,7 +27,7 @@ PROP = {
 }
 
 CLAIM = {
-  "text": "Coq theorems over a global server model (shared handler state + one private session state per connection; inputs are (connection, chunk | end) pairs in an ARBITRARY interleaving, any number of connections, equal transaction ids allowed), for EVERY handler: (T1 routing) every output of a step on connection c is addressed to c; every handler invocation observed for c carries c's address and role; every response written to c answers the next unanswered request frame of c and carries that frame's transaction id and unit id (answers_ok, via C03's pipelining theorem). (T2 non-interference) the projection of any global run on c equals C03's single-connection session (server_run) on c's own concatenated bytes with the shared handler replaced by the list of answers it gave to c (oracle form, any handler); for a handler whose answers are a function of the request it equals c's private session exactly, whatever the other connections sent and however the chunks interleave. (T3 no head-of-line blocking, logical half) a step on c leaves every other session unchanged; the step that delivers the last byte of a complete frame of c answers it with no hypothesis on the other sessions (stalled mid-frame or closed); c's observations depend on c's byte stream only, not on its chunking nor on the interleaving (two arbitrary runs compared). The real server is run with 2-8 concurrent raw TCP clients on scripted interleavings and compared with the model per connection (responses and handler attributions).",
+  "text": "Lock side of 'a stalled connection does not delay others' (C11b, over the lock skeleton regenerated from server.go on every run): in every interleaving of any number of Start/Stop/accept/session goroutines a goroutine that waits for a peer, for the handler or for another goroutine does not hold ms.lock, and the holder of ms.lock is never about to wait (c11b_wait_without_lock, c11b_holder_not_waiting). Coq theorems over a global server model (shared handler state + one private session state per connection; inputs are (connection, chunk | end) pairs in an ARBITRARY interleaving, any number of connections, equal transaction ids allowed), for EVERY handler: (T1 routing) every output of a step on connection c is addressed to c; every handler invocation observed for c carries c's address and role; every response written to c answers the next unanswered request frame of c and carries that frame's transaction id and unit id (answers_ok, via C03's pipelining theorem). (T2 non-interference) the projection of any global run on c equals C03's single-connection session (server_run) on c's own concatenated bytes with the shared handler replaced by the list of answers it gave to c (oracle form, any handler); for a handler whose answers are a function of the request it equals c's private session exactly, whatever the other connections sent and however the chunks interleave. (T3 no head-of-line blocking, logical half) a step on c leaves every other session unchanged; the step that delivers the last byte of a complete frame of c answers it with no hypothesis on the other sessions (stalled mid-frame or closed); c's observations depend on c's byte stream only, not on its chunking nor on the interleaving (two arbitrary runs compared). The real server is run with 2-8 concurrent raw TCP clients on scripted interleavings and compared with the model per connection (responses and handler attributions).",
   "note": "partial: 'does not delay' in wall-clock terms relies on one goroutine per connection and on the server lock not being held across reads/handler calls, which the harness observes (stalled connection + blocked handler call + healthy connection answered within 300 ms) but the model does not express: the model serialises handler invocations (one atomic step each) and has no notion of time. TLS roles per connection are covered by the C14/C15 work; here the role is an opaque per-connection value (plain TCP: empty). Trusted: kernel, extraction, harness, VerifListenAddr hook.",
   "technique": "Coq proof (simulation of the shared handler by an oracle / by a pure function through a one-call lemma on server_process, chunking lemma on the per-session request loop, reuse of C03's pipelining theorem) + differential correspondence against a real multi-connection server",
 }
